@@ -854,3 +854,29 @@ func (r *Run) TraceString(n int) string {
 	}
 	return b.String()
 }
+
+// Gate is a barrier for harness use: tasks that Wait park (as on a held
+// mutex, so no busy waiting under any scheduling policy) until the root
+// goroutine opens it.
+type Gate struct{ _ byte }
+
+var gateKeeper = &Task{Name: "gate"}
+
+func (r *Run) NewGate() *Gate {
+	g := &Gate{}
+	r.lockOf(unsafe.Pointer(g)).owner = gateKeeper
+	return g
+}
+
+// Open lets every waiting and future Wait pass. Root goroutine only.
+func (r *Run) OpenGate(g *Gate) { r.lockOf(unsafe.Pointer(g)).owner = nil }
+
+// Wait parks the calling task until the gate is open.
+//
+//go:norace
+func (g *Gate) Wait() {
+	if r := Active(); r != nil {
+		r.Acquire(unsafe.Pointer(g), false)
+		r.Release(unsafe.Pointer(g), false)
+	}
+}
